@@ -35,6 +35,7 @@ THEOREMS = [
     "Nix.C06.C06_data_windows",
     "Nix.C06.C06_data_axis_range",
     "Nix.C06.C06_data_axis_sampled",
+    "Nix.C06.C06_source_bydim",
 ]
 ASSUMPTIONS = [
     "array content is not modelled here (C01): reads and writes are described by the ordered list of parent "
@@ -64,10 +65,14 @@ SITE_ARRAY = "nixio/data_array.py / nixio/hdf5/h5dataset.py"
 
 
 def py_ix1(c):
+    """integers divisible by 3 (0 included) are handed over as numpy integers, the others as Python ints: both are
+    `numbers.Integral`, both are what users index with (loop counters vs. results of np.argmax / np.where)"""
     if c == "...":
         return Ellipsis
     if isinstance(c, dict):
-        return slice(*c["s"])
+        return slice(*[(np.int64(x) if isinstance(x, int) and x % 3 == 0 and x % 2 else x) for x in c["s"]])
+    if isinstance(c, int) and not isinstance(c, bool) and c % 3 == 0:
+        return np.int64(c)
     return c
 
 
@@ -605,6 +610,21 @@ FIXED_CASES = [
 ]
 
 
+# assignments of sources NumPy refuses / broadcasts (oracle only; the model does not speak about values):
+# the empty source with a leading zero-length axis stored uninitialised memory before the fix (see known findings)
+ORACLE_FIXED = [
+    ["da_write_src", [1], [], [0, 1]], ["da_write_src", [2, 3], [], [0, 2, 3]], ["da_write_src", [2, 3], "...", [0, 3]],
+    ["da_write_src", [4], S(1, 3, None), [0, 2]], ["da_write_src", [4], S(1, 3, None), [0]],
+    ["da_write_src", [4], S(1, 3, None), [3]], ["da_write_src", [4], S(1, 3, None), [1, 1, 2]],
+    ["da_write_src", [4], S(2, 2, None), [0, 0]], ["da_write_src", [2, 3], [S(None, None, None), 0], [0, 2]],
+    ["da_write_src", [2, 3], [S(None, None, None), 0], [1]], ["da_write_src", [2, 3], [], [3]],
+    ["da_write_src", [2, 3], [], [2, 1]], ["da_write_src", [2, 3], [], [2]], ["da_write_src", [2, 3], [], [2, 2, 3]],
+    ["view_write_src", [4], [1], [2], S(None, None, None), [0, 2]], ["view_write_src", [4], [1], [2], None, [0, 2]],
+    ["view_write_src", [3, 4], [1, 1], [2, 2], [S(None, None, None), 0], [0, 2]],
+    ["view_write_src", [3, 4], [1, 1], [2, 2], "...", [2, 1]], ["view_write_src", [3, 4], [1, 1], [2, 2], [], [3, 2]],
+]
+
+
 def gen_cases(ctx):
     rng = ctx.rng
     cases = []
@@ -794,6 +814,12 @@ def ovalue(i):
 def check_case(env, case):
     """returns a Failure if the implementation violates C06 on this case, else None.
     case: [op, shape, (positions, extents,) ix] with op in da_read/da_write/view/view_read/view_write"""
+    report = case
+    forced = None
+    if case[0] in ("da_write_src", "view_write_src"):
+        # an assignment with a source of the given shape: [..., ix, source shape]
+        forced = tuple(case[-1])
+        case = [case[0][:-4]] + case[1:-1]
     op = case[0]
     if op not in ("da_read", "da_write", "view", "view_read", "view_write", "view_data", "view_data_read"):
         return None
@@ -823,7 +849,7 @@ def check_case(env, case):
         if not v.valid:
             got = np.asarray(v[:])
             if got.size:
-                return Failure("an invalid view (DATA mode) yields elements", case,
+                return Failure("an invalid view (DATA mode) yields elements", report,
                                [int(x) for x in got.ravel()[:12]], "invalid and empty", "DataView._read_data")
             return None
         wins = [(int(sl.start), int(sl.stop)) for sl in v._slices]
@@ -833,14 +859,14 @@ def check_case(env, case):
                            "DataArray._get_slice_bydim / DataView.__init__")
         win = tuple(slice(a, b) for a, b in wins)
         if list(v.shape) != [b - a for a, b in wins]:
-            return Failure("view has the wrong shape", case, list(v.shape), [b - a for a, b in wins],
+            return Failure("view has the wrong shape", report, list(v.shape), [b - a for a, b in wins],
                            "DataView.data_extent")
         target = v
         if op == "view_data":
             got = np.asarray(v[:])
             want = base[win]
             if got.shape != want.shape or not np.array_equal(got, want):
-                return Failure("view[:] (DATA mode) is not the window of the array", case,
+                return Failure("view[:] (DATA mode) is not the window of the array", report,
                                got.ravel()[:20].tolist(), want.ravel()[:20].tolist(), SITE_VIEW)
             return None
     elif has_win:
@@ -852,7 +878,7 @@ def check_case(env, case):
             v = da.get_slice(pos, ext)
         except Exception as e:
             if inside:
-                return Failure("a window inside the array was refused", case, err_name(e),
+                return Failure("a window inside the array was refused", report, err_name(e),
                                "a valid view of shape %s" % list(ext), "DataArray.get_slice")
             return None          # refused: fine
         if not inside:
@@ -862,23 +888,23 @@ def check_case(env, case):
                 n = got.size
             except Exception as e:
                 if v.valid:
-                    return Failure("a window outside the array gave a view marked valid whose read fails", case,
+                    return Failure("a window outside the array gave a view marked valid whose read fails", report,
                                    {"valid": True, "shape": repr(v.shape), "read": err_name(e)},
                                    "refused, or invalid and empty", "DataView.__init__")
                 n = 0
             if n != 0:
-                return Failure("a window outside the array yields elements", case,
+                return Failure("a window outside the array yields elements", report,
                                {"valid": bool(v.valid), "elements": [int(x) for x in got.ravel()[:12]]},
                                "refused, or invalid and empty", "DataView.__init__")
             if v.valid and any(x < 0 for x in v.shape):
-                return Failure("a window outside the array gave a valid view with a negative shape", case,
+                return Failure("a window outside the array gave a valid view with a negative shape", report,
                                {"valid": True, "shape": list(v.shape)}, "refused, or invalid and empty",
                                "DataView.__init__")
             if op == "view_read" and in_scope_ix(ix) and ix is not None:
                 try:
                     got = np.asarray(v[py_ix(ix)])
                     if got.size:
-                        return Failure("indexing a view requested outside the array yields elements", case,
+                        return Failure("indexing a view requested outside the array yields elements", report,
                                        [int(x) for x in got.ravel()[:12]], "refused, or empty", SITE_VIEW)
                 except Exception:
                     pass
@@ -892,23 +918,23 @@ def check_case(env, case):
                 except Exception:
                     pass
                 if not np.array_equal(env.raw(shape), base):
-                    return Failure("assigning through a view requested outside the array changed the array", case,
+                    return Failure("assigning through a view requested outside the array changed the array", report,
                                    [int(x) for x in np.nonzero(env.raw(shape).ravel() != base.ravel())[0][:12]],
                                    "no element changes", SITE_VIEW)
             return None
         if not v.valid:
-            return Failure("a window inside the array gave an invalid view", case, v.debug_message[:200] if
+            return Failure("a window inside the array gave an invalid view", report, v.debug_message[:200] if
                            isinstance(v.debug_message, str) else str(v.debug_message)[:200],
                            "a valid view of shape %s" % list(ext), "DataView.__init__")
         if list(v.shape) != list(ext):
-            return Failure("view has the wrong shape", case, list(v.shape), list(ext), "DataView.data_extent")
+            return Failure("view has the wrong shape", report, list(v.shape), list(ext), "DataView.data_extent")
         win = tuple(slice(p, p + e) for p, e in zip(pos, ext))
         target = v
         if op == "view":
             got = np.asarray(v[:])
             want = base[win]
             if got.shape != want.shape or not np.array_equal(got, want):
-                return Failure("view[:] is not the window of the array", case, got.ravel()[:20].tolist(),
+                return Failure("view[:] is not the window of the array", report, got.ravel()[:20].tolist(),
                                want.ravel()[:20].tolist(), SITE_VIEW)
             return None
     else:
@@ -941,46 +967,54 @@ def check_case(env, case):
         expr = "%s[%s]" % ("view" if has_win else "array", show_ix(ix))
         if want_err is not None:
             if got_err is None:
-                return Failure("%s: NumPy refuses (%s) but data came back" % (expr, want_err), case,
+                return Failure("%s: NumPy refuses (%s) but data came back" % (expr, want_err), report,
                                {"shape": list(got.shape), "values": got.ravel()[:12].tolist()},
                                "IndexError / OutOfBounds", site)
             if not too_many and not isinstance(got_err, IndexError):
-                return Failure("%s: out-of-range integer refused with the wrong kind of error" % expr, case,
+                return Failure("%s: out-of-range integer refused with the wrong kind of error" % expr, report,
                                err_name(got_err), "IndexError / OutOfBounds", site)
             return None
         if got_err is not None:
-            return Failure("%s: refused although NumPy returns data" % expr, case,
+            return Failure("%s: refused although NumPy returns data" % expr, report,
                            "%s: %s" % (err_name(got_err), str(got_err)[:120]),
                            {"shape": list(want.shape), "values": want.ravel()[:12].tolist()}, site)
         wshape = want.shape if want.shape != () else (1,)
         if tuple(got.shape) != tuple(wshape) or not np.array_equal(got.ravel(), want.ravel()):
-            return Failure("%s differs from NumPy on an in-memory copy" % expr, case,
+            return Failure("%s differs from NumPy on an in-memory copy" % expr, report,
                            {"shape": list(got.shape), "values": got.ravel()[:20].tolist()},
                            {"shape": list(wshape), "values": want.ravel()[:20].tolist()}, site)
         return None
 
-    # writes: scalar and exactly-shaped values
+    # writes: scalar, exactly-shaped, broadcast and wrongly shaped sources
     copy0 = base.copy()
     try:
         sel = np.asarray(np_apply(copy0))
         want_err = None
     except IndexError as e:
         sel, want_err = None, e
-    variants = ["scalar"]
+    variants = [("scalar", None)]
     if sel is not None and sel.shape != ():
-        variants.append("array")
-    for variant in variants:
+        variants.append(("array", tuple(sel.shape)))
+        variants += source_shapes(case, tuple(sel.shape))
+    if forced is not None:
+        variants = [("source", forced)] if sel is not None and sel.shape != () else []
+    for variant, vshape in variants:
         copy = base.copy()
-        if variant == "scalar" or sel is None:
+        if vshape is None or sel is None:
             val = WBASE
         else:
-            val = (WBASE + np.arange(sel.size, dtype=np.int64)).reshape(sel.shape)
+            val = (WBASE + np.arange(prod(vshape), dtype=np.int64)).reshape(vshape)
+        shape_err = None
         if want_err is None:
             w = copy[win]
-            if ixp is None:
-                w[...] = val
-            else:
-                w[ixp] = val
+            try:
+                if ixp is None:
+                    w[...] = val
+                else:
+                    w[ixp] = val
+            except ValueError as e:        # NumPy: the source cannot be broadcast to the selection
+                shape_err = e
+                copy = base.copy()
         da = env.array(shape)       # resets the content if a previous write dirtied it
         target = da.get_slice(case[2], case[3]) if has_win else da
         env.mark(shape)
@@ -993,32 +1027,66 @@ def check_case(env, case):
         except Exception as e:
             got_err = e
         after = env.raw(shape)
-        expr = "%s[%s] = <%s>" % ("view" if has_win else "array", show_ix(ix), variant)
+        expr = "%s[%s] = <%s%s>" % ("view" if has_win else "array", show_ix(ix), variant,
+                                    "" if vshape is None else " of shape %s" % (list(vshape),))
         if want_err is not None:
             if got_err is None or not np.array_equal(after, base):
                 return Failure("%s: NumPy refuses (%s) but the assignment %s" % (
-                    expr, want_err, "went through" if got_err is None else "changed the array before failing"), case,
+                    expr, want_err, "went through" if got_err is None else "changed the array before failing"), report,
                     {"changed": np.nonzero(after.ravel() != base.ravel())[0][:12].tolist()},
                     "refused, nothing changes", site)
             if not too_many and not isinstance(got_err, IndexError):
-                return Failure("%s: out-of-range integer refused with the wrong kind of error" % expr, case,
+                return Failure("%s: out-of-range integer refused with the wrong kind of error" % expr, report,
                                err_name(got_err), "IndexError / OutOfBounds", site)
             continue
+        if shape_err is not None:
+            # a source NumPy cannot broadcast to the selection: refused, or at least nothing may change
+            # (h5py skips an empty selection without looking at the source; the array is the same either way)
+            if not np.array_equal(after, base):
+                diff = np.nonzero(after.ravel() != base.ravel())[0]
+                return Failure("%s: NumPy refuses the source (%s) but the array was changed" % (
+                    expr, str(shape_err)[:80]), report,
+                    {"offsets": diff[:12].tolist(), "have": after.ravel()[diff[:12]].tolist(),
+                     "error": None if got_err is None else err_name(got_err)},
+                    "refused, nothing changes", site)
+            continue
         if got_err is not None:
-            return Failure("%s: refused although NumPy performs it" % expr, case,
+            return Failure("%s: refused although NumPy performs it" % expr, report,
                            "%s: %s" % (err_name(got_err), str(got_err)[:120]), "assignment", site)
         if not np.array_equal(after, copy):
             diff = np.nonzero(after.ravel() != copy.ravel())[0]
             return Failure("%s: the array afterwards differs from NumPy's result (elements not addressed were "
-                           "changed, or addressed ones were not)" % expr, case,
+                           "changed, or addressed ones were not)" % expr, report,
                            {"offsets": diff[:12].tolist(), "have": after.ravel()[diff[:12]].tolist()},
                            {"offsets": diff[:12].tolist(), "want": copy.ravel()[diff[:12]].tolist()}, site)
     return None
 
 
+def source_shapes(case, sel):
+    """two further source shapes for an assignment to a selection of shape `sel` (rank >= 1), chosen by a generator
+    seeded from the case itself (replays are reproducible): sources NumPy broadcasts (leading 1s, a 1 for an axis,
+    trailing axes only) and sources it refuses (an axis off by one, an extra leading axis, an empty source)"""
+    import random
+    import zlib
+    rng = random.Random(zlib.crc32(core.canon(case).encode()))
+    cands = [("ones-prefix", (1,) * rng.randint(1, 2) + sel)]
+    big = [i for i, n in enumerate(sel) if n != 1]
+    if big:
+        i = rng.choice(big)
+        cands.append(("one-for-an-axis", sel[:i] + (1,) + sel[i + 1:]))
+        cands.append(("axis-off-by-one", sel[:i] + (sel[i] + (rng.choice([1, -1]) if sel[i] else 1),) + sel[i + 1:]))
+    if len(sel) > 1:
+        cands.append(("trailing-axes", sel[rng.randint(1, len(sel) - 1):]))
+    cands.append(("extra-leading-axis", (rng.randint(2, 3),) + sel))
+    cands.append(("empty", rng.choice([(0,), sel[:-1] + (0,), (0,) + sel])))
+    cands.append(("all-ones", (1,) * len(sel)))
+    rng.shuffle(cands)
+    return cands[:2]
+
+
 def oracle_cases(ctx, full):
     rng = ctx.rng
-    cases = [c for c in FIXED_CASES if c[0] not in ("mkview",)]
+    cases = [c for c in FIXED_CASES if c[0] not in ("mkview",)] + ORACLE_FIXED
     # boundary enumeration the property names: rank 1, every window x every component
     for c in (exhaustive_cases(3, rank2=True, reduced=True) if full else exhaustive_cases(2, rank2=False)):
         if c[0] != "np":
